@@ -26,7 +26,9 @@ import (
 	"os"
 	"os/exec"
 	"path/filepath"
+	"regexp"
 	"sort"
+	"strconv"
 	"strings"
 	"sync"
 	"syscall"
@@ -46,6 +48,7 @@ type registry struct {
 	mu        sync.Mutex
 	manifests map[string][]byte // "ns/model:tag" (lower-cased) -> manifest JSON
 	blobs     map[string][]byte // digest as spelled in the request path -> bytes
+	zeros     map[string]int64  // digest -> length of an all-zero body
 	ln        net.Listener
 	log       []string
 }
@@ -60,7 +63,7 @@ func startRegistry() {
 	if err != nil {
 		panic(err)
 	}
-	reg = &registry{manifests: map[string][]byte{}, blobs: map[string][]byte{}, ln: ln}
+	reg = &registry{manifests: map[string][]byte{}, blobs: map[string][]byte{}, zeros: map[string]int64{}, ln: ln}
 	mux := http.NewServeMux()
 	mux.HandleFunc("/v2/", func(w http.ResponseWriter, r *http.Request) {
 		reg.mu.Lock()
@@ -81,8 +84,10 @@ func startRegistry() {
 		if i := strings.Index(p, "/blobs/"); i >= 0 {
 			d := p[i+len("/blobs/"):]
 			if _, ok := reg.blobs[d]; !ok {
-				http.NotFound(w, r)
-				return
+				if _, zok := reg.zeros[d]; !zok {
+					http.NotFound(w, r)
+					return
+				}
 			}
 			// like the real registry: redirect to a "CDN" on another host name
 			http.Redirect(w, r, "http://cdn.test/cdn/"+d, http.StatusTemporaryRedirect)
@@ -95,7 +100,13 @@ func startRegistry() {
 		d := strings.TrimPrefix(r.URL.Path, "/cdn/")
 		reg.log = append(reg.log, r.Method+" cdn "+r.Header.Get("Range"))
 		b, ok := reg.blobs[d]
+		zn, zok := reg.zeros[d]
 		reg.mu.Unlock()
+		if zok {
+			// a procedural body: zn zero bytes (layers of more than one download part need > 100 MB)
+			http.ServeContent(w, r, "", time.Time{}, &zeroSeeker{size: zn})
+			return
+		}
 		if !ok {
 			http.NotFound(w, r)
 			return
@@ -110,6 +121,36 @@ func startRegistry() {
 		return d.DialContext(ctx, "tcp", ln.Addr().String())
 	}
 	tr.Proxy = nil
+}
+
+// zeroSeeker is an all-zero body of a given length
+type zeroSeeker struct{ size, pos int64 }
+
+func (z *zeroSeeker) Read(p []byte) (int, error) {
+	if z.pos >= z.size {
+		return 0, io.EOF
+	}
+	n := int64(len(p))
+	if n > z.size-z.pos {
+		n = z.size - z.pos
+	}
+	for i := int64(0); i < n; i++ {
+		p[i] = 0
+	}
+	z.pos += n
+	return int(n), nil
+}
+
+func (z *zeroSeeker) Seek(off int64, whence int) (int64, error) {
+	switch whence {
+	case io.SeekStart:
+		z.pos = off
+	case io.SeekCurrent:
+		z.pos += off
+	case io.SeekEnd:
+		z.pos = z.size + off
+	}
+	return z.pos, nil
 }
 
 // ---------------------------------------------------------------- requests against the real router
@@ -198,6 +239,7 @@ func runOp(dir string, op map[string]any) map[string]any {
 			reg.mu.Lock()
 			reg.manifests = map[string][]byte{}
 			reg.blobs = map[string][]byte{}
+			reg.zeros = map[string]int64{}
 			if ms, ok := rg["manifests"].(map[string]any); ok {
 				for k, v := range ms {
 					b, _ := json.Marshal(v)
@@ -206,6 +248,11 @@ func runOp(dir string, op map[string]any) map[string]any {
 			}
 			if bs, ok := rg["blobs"].(map[string]any); ok {
 				for k, v := range bs {
+					if z, ok := strings.CutPrefix(v.(string), "zeros:"); ok {
+						n, _ := strconv.ParseInt(z, 10, 64)
+						reg.zeros[k] = n
+						continue
+					}
 					b, _ := hex.DecodeString(v.(string))
 					reg.blobs[k] = b
 				}
@@ -374,6 +421,17 @@ func project(dir string) map[string]any {
 			n, _ := io.Copy(h, f)
 			f.Close()
 			be := map[string]any{"name": e.Name(), "sha": hex.EncodeToString(h.Sum(nil)), "size": n}
+			if partRecordName.MatchString(e.Name()) {
+				// a part record of a download: {"N":..,"Offset":..,"Size":..,"Completed":..}, rewritten in place
+				var pr struct{ N, Offset, Size, Completed int64 }
+				if b, err := os.ReadFile(p); err != nil || json.Unmarshal(b, &pr) != nil {
+					be["part"] = "torn"
+				} else if pr.Completed >= pr.Size {
+					be["part"] = "done"
+				} else {
+					be["part"] = "todo"
+				}
+			}
 			if li, err := os.Lstat(p); err == nil {
 				noteIdentity(be, "blobs/"+e.Name(), p, li, inodes)
 			}
@@ -411,6 +469,8 @@ func project(dir string) map[string]any {
 	sort.Strings(other)
 	return map[string]any{"manifests": mans, "blobs": blobs, "other": other, "empty_dirs": emptyDirs}
 }
+
+var partRecordName = regexp.MustCompile(`-partial-[0-9]+$`)
 
 // noteIdentity records what a directory listing cannot show by name: symbolic links and shared inodes
 func noteIdentity(e map[string]any, id, p string, info os.FileInfo, inodes map[uint64][]map[string]any) {
